@@ -1,2 +1,2 @@
 import CanvasModel.Prelude
-import CanvasModel.Dispatch
+import CanvasModel.Driver
